@@ -3,6 +3,7 @@
 -/
 import SoupVerif.Model.Lang
 import SoupVerif.Spec.Rfc4647
+import SoupVerif.Generated.Regexes
 namespace SoupVerif
 namespace LangLemmas
 open Spec
@@ -495,6 +496,379 @@ instance decEmbedsAt : (rs ts : List Str) → (ps : List Nat) → Decidable (Emb
       EmbedsAt rs (ts.drop (p + 1)) ps))
   | [], _, _ :: _ => isFalse (fun h => h)
   | _ :: _, _, [] => isFalse (fun h => h)
+
+/-! ### Text-level effect of the two regex substitutions
+
+`$` is read as "end of text".  Python's `$` (no MULTILINE) also matches just before a final
+`\n`, so these functions are the regexes' effect only on texts without a trailing newline
+(see the examples in `Properties/C13.lean`, checked against the regex model). -/
+
+/-- `s ∈ ("-*")*`. -/
+def isStarRun : Str → Bool
+  | [] => true
+  | [_] => false
+  | a :: b :: rest => a == 45 && b == 42 && isStarRun rest
+
+/-- `RE_WILD_TAIL.sub('', s)`, `RE_WILD_TAIL = (?:-\*)+$`: cut the text at the leftmost position
+    from which it is a non-empty run of `-*` up to the end. -/
+def tailStrip : Str → Str
+  | [] => []
+  | c :: cs => if isStarRun (c :: cs) then [] else c :: tailStrip cs
+
+/-- `RE_WILD_STRIP.sub('-', s)`, `RE_WILD_STRIP = (?:(?:-\*-)(?:\*(?:-|$))*|-\*$)`.
+    The flag says "inside the `(?:\*(?:-|$))*` loop of a match that already emitted its `-`". -/
+def collapse : Bool → Str → Str
+  | true, 42 :: 45 :: rest => collapse true rest              -- loop: `*-`
+  | true, [42] => []                                          -- loop: `*$`
+  | _, 45 :: 42 :: 45 :: rest => 45 :: collapse true rest     -- `-*-` ↦ `-`, enter the loop
+  | _, [45, 42] => [45]                                       -- `-*$` ↦ `-`
+  | _, a :: rest => a :: collapse false rest                  -- no match here: copy
+  | _, [] => []
+
+/-- `RE_WILD_STRIP.sub('-', RE_WILD_TAIL.sub('', s))`. -/
+def wildStripText (s : Str) : Str := collapse false (tailStrip s)
+
+/-- Delete a maximal trailing run of `*` subtags. -/
+def dropTrailingStars : List Str → List Str
+  | [] => []
+  | r :: rs => if (r :: rs).all (· == star) then [] else r :: dropTrailingStars rs
+
+theorem splitOn_exists (s : Str) : ∃ p ps, splitOn 45 s = p :: ps := by
+  cases h : splitOn 45 s with
+  | nil => exact absurd h (splitOn_ne_nil 45 s)
+  | cons p ps => exact ⟨p, ps, rfl⟩
+
+theorem splitOn_dash (cs : Str) : splitOn 45 (45 :: cs) = [] :: splitOn 45 cs := by
+  obtain ⟨p, ps, h⟩ := splitOn_exists cs
+  simp [splitOn, h]
+
+theorem splitOn_cons_ne {c : Nat} {cs p : Str} {ps : List Str} (hc : c ≠ 45)
+    (h : splitOn 45 cs = p :: ps) : splitOn 45 (c :: cs) = (c :: p) :: ps := by
+  simp [splitOn, h, hc]
+
+theorem splitOn_head_nil {s : Str} {ps : List Str} (h : splitOn 45 s = [] :: ps) :
+    s = [] ∨ ∃ rest, s = 45 :: rest := by
+  cases s with
+  | nil => exact Or.inl rfl
+  | cons a s' =>
+    by_cases ha : a = 45
+    · exact Or.inr ⟨s', by rw [ha]⟩
+    · obtain ⟨p, ps', h'⟩ := splitOn_exists s'
+      rw [splitOn_cons_ne ha h'] at h
+      simp at h
+
+theorem splitOn_head_star {s : Str} {ps : List Str} (h : splitOn 45 s = star :: ps) :
+    s = [42] ∨ ∃ rest, s = 42 :: 45 :: rest := by
+  cases s with
+  | nil => simp [splitOn, star] at h
+  | cons a s' =>
+    by_cases ha : a = 45
+    · subst ha; rw [splitOn_dash] at h; simp [star] at h
+    · obtain ⟨p, ps', h'⟩ := splitOn_exists s'
+      rw [splitOn_cons_ne ha h'] at h
+      simp only [star, List.cons.injEq] at h
+      obtain ⟨⟨rfl, rfl⟩, rfl⟩ := h
+      rcases splitOn_head_nil h' with rfl | ⟨rest, rfl⟩
+      · exact Or.inl rfl
+      · exact Or.inr ⟨rest, rfl⟩
+
+theorem isStarRun_head {c : Nat} {cs : Str} (h : isStarRun (c :: cs) = true) : c = 45 := by
+  cases cs with
+  | nil => simp [isStarRun] at h
+  | cons b rest => simp [isStarRun] at h; exact h.1.1
+
+theorem isStarRun_dash : ∀ cs : Str, isStarRun (45 :: cs) = (splitOn 45 cs).all (· == star)
+  | [] => by decide
+  | [b] => by
+    by_cases hb : b = 45
+    · subst hb; decide
+    · rw [splitOn_cons_ne hb rfl]; simp [isStarRun, star]
+  | b :: c :: rest => by
+    by_cases hc : c = 45
+    · subst hc
+      have ih := isStarRun_dash rest
+      by_cases hb : b = 45
+      · subst hb; rw [splitOn_dash, splitOn_dash]; simp [isStarRun, star]
+      · rw [splitOn_cons_ne hb (splitOn_dash rest)]
+        rw [isStarRun, ih]; simp [star]
+    · have h1 : isStarRun (c :: rest) = false := by
+        cases rest <;> simp [isStarRun, hc]
+      obtain ⟨p, ps, h'⟩ := splitOn_exists rest
+      by_cases hb : b = 45
+      · subst hb; rw [splitOn_dash, splitOn_cons_ne hc h']; simp [isStarRun, star]
+      · rw [splitOn_cons_ne hb (splitOn_cons_ne hc h')]
+        simp [isStarRun, h1, star]
+
+/-- Keep the first subtag, delete a maximal trailing run of `*` among the others. -/
+def dropTS : List Str → List Str
+  | [] => []
+  | r :: rs => r :: dropTrailingStars rs
+
+theorem dropTrailingStars_all {l : List Str} (h : l.all (· == star) = true) :
+    dropTrailingStars l = [] := by
+  cases l with
+  | nil => rfl
+  | cons r rs => simp only [dropTrailingStars, h, if_true]
+
+theorem dropTrailingStars_not_all {r : Str} {rs : List Str}
+    (h : (r :: rs).all (· == star) = false) :
+    dropTrailingStars (r :: rs) = r :: dropTrailingStars rs := by
+  simp only [dropTrailingStars, h, Bool.false_eq_true, if_false]
+
+theorem dropTrailingStars_eq_nil {l : List Str} (h : dropTrailingStars l = []) :
+    l.all (· == star) = true := by
+  cases l with
+  | nil => rfl
+  | cons r rs =>
+    cases hall : (r :: rs).all (· == star) with
+    | true => rfl
+    | false => rw [dropTrailingStars_not_all hall] at h; cases h
+
+theorem splitOn_tailStrip (s : Str) : splitOn 45 (tailStrip s) = dropTS (splitOn 45 s) := by
+  induction s with
+  | nil => rfl
+  | cons c cs ih =>
+    obtain ⟨p, ps, hp⟩ := splitOn_exists cs
+    cases hrun : isStarRun (c :: cs) with
+    | true =>
+      have hc := isStarRun_head hrun
+      subst hc
+      have ht : tailStrip (45 :: cs) = [] := by simp only [tailStrip, hrun, if_true]
+      rw [isStarRun_dash] at hrun
+      rw [ht, splitOn_dash, dropTS, dropTrailingStars_all hrun]; rfl
+    | false =>
+      have ht : tailStrip (c :: cs) = c :: tailStrip cs := by
+        simp only [tailStrip, hrun, Bool.false_eq_true, if_false]
+      rw [ht]
+      by_cases hc : c = 45
+      · subst hc
+        rw [isStarRun_dash, hp] at hrun
+        rw [splitOn_dash, splitOn_dash, ih, hp, dropTS, dropTS, dropTrailingStars_not_all hrun]
+      · have h1 : splitOn 45 (tailStrip cs) = p :: dropTrailingStars ps := by rw [ih, hp]; rfl
+        rw [splitOn_cons_ne hc h1, splitOn_cons_ne hc hp]; rfl
+
+theorem filter_dropTrailingStars (l : List Str) :
+    (dropTrailingStars l).filter (· != star) = l.filter (· != star) := by
+  induction l with
+  | nil => rfl
+  | cons r rs ih =>
+    cases hall : (r :: rs).all (· == star) with
+    | true =>
+      rw [dropTrailingStars_all hall]
+      symm
+      rw [List.filter_nil, List.filter_eq_nil_iff]
+      intro x hx
+      have := List.all_eq_true.1 hall x hx
+      simp [bne, this]
+    | false =>
+      rw [dropTrailingStars_not_all hall, List.filter_cons, List.filter_cons, ih]
+
+theorem getLast_dropTrailingStars (l : List Str) :
+    (dropTrailingStars l).getLast? ≠ some star := by
+  induction l with
+  | nil => simp [dropTrailingStars]
+  | cons r rs ih =>
+    cases hall : (r :: rs).all (· == star) with
+    | true => rw [dropTrailingStars_all hall]; simp
+    | false =>
+      rw [dropTrailingStars_not_all hall]
+      cases hd : dropTrailingStars rs with
+      | nil =>
+        have := dropTrailingStars_eq_nil hd
+        simp only [List.all_cons, this, Bool.and_true] at hall
+        simp only [List.getLast?_singleton, ne_eq, Option.some.injEq]
+        intro h; rw [h] at hall; simp at hall
+      | cons d ds => rw [List.getLast?_cons_cons, ← hd]; exact ih
+
+theorem collapse_copy (e : Bool) (a : Nat) (s' : Str)
+    (h1 : ¬ (a = 45 ∧ ((∃ rest, s' = 42 :: 45 :: rest) ∨ s' = [42])))
+    (h2 : ¬ (e = true ∧ a = 42 ∧ ((∃ rest, s' = 45 :: rest) ∨ s' = []))) :
+    collapse e (a :: s') = a :: collapse false s' := by
+  apply collapse.eq_5
+  · intro r ha hr; exact h1 ⟨ha, Or.inl ⟨r, hr⟩⟩
+  · intro ha hr; exact h1 ⟨ha, Or.inr hr⟩
+  · intro r he ha hr; exact h2 ⟨he, ha, Or.inl ⟨r, hr⟩⟩
+  · intro he ha hr; exact h2 ⟨he, ha, Or.inr hr⟩
+
+theorem nil_bne_star : (([] : Str) != star) = true := by decide
+theorem star_bne_star : (star != star) = false := by decide
+
+/-- What `collapse` does on the subtag level, for both values of the flag, provided the text does
+    not end in a `*` subtag (which `tailStrip` guarantees). -/
+theorem collapse_spec (n : Nat) : ∀ s : Str, s.length ≤ n →
+    ((splitOn 45 s).getLast? ≠ some star →
+        splitOn 45 (collapse true s) = (splitOn 45 s).filter (· != star)) ∧
+    (∀ p ps, splitOn 45 s = p :: ps → ps.getLast? ≠ some star →
+        splitOn 45 (collapse false s) = p :: ps.filter (· != star)) := by
+  have hnil : ((splitOn 45 []).getLast? ≠ some star →
+        splitOn 45 (collapse true []) = (splitOn 45 []).filter (· != star)) ∧
+      (∀ p ps, splitOn 45 [] = p :: ps → ps.getLast? ≠ some star →
+        splitOn 45 (collapse false []) = p :: ps.filter (· != star)) := by
+    refine ⟨fun _ => by decide, ?_⟩
+    intro p ps h _
+    simp only [splitOn, List.cons.injEq] at h
+    obtain ⟨rfl, rfl⟩ := h
+    rfl
+  induction n with
+  | zero =>
+    intro s hs
+    have : s = [] := List.eq_nil_of_length_eq_zero (Nat.le_zero.1 hs)
+    subst this; exact hnil
+  | succ n ih =>
+    intro s hs
+    cases s with
+    | nil => exact hnil
+    | cons a s' =>
+      have hs' : s'.length ≤ n := Nat.le_of_succ_le_succ hs
+      obtain ⟨p', ps', hp'⟩ := splitOn_exists s'
+      by_cases ha : a = 45
+      · subst ha
+        by_cases h1 : ∃ rest, s' = 42 :: 45 :: rest
+        · -- `-*-` : collapse, enter the loop
+          obtain ⟨rest, rfl⟩ := h1
+          have hrest : rest.length ≤ n := by
+            simp only [List.length_cons] at hs'; omega
+          have hsp : splitOn 45 (45 :: 42 :: 45 :: rest) = [] :: star :: splitOn 45 rest := by
+            rw [splitOn_dash, splitOn_cons_ne (by decide) (splitOn_dash rest)]; rfl
+          obtain ⟨q, qs, hq⟩ := splitOn_exists rest
+          have hT := (ih rest hrest).1
+          have hcol : ∀ e, collapse e (45 :: 42 :: 45 :: rest) = 45 :: collapse true rest :=
+            fun e => collapse.eq_3 e rest
+          constructor
+          · intro hl
+            rw [hsp, hq, List.getLast?_cons_cons, List.getLast?_cons_cons, ← hq] at hl
+            rw [hcol, splitOn_dash, hsp, hT hl]
+            simp only [List.filter_cons, nil_bne_star, star_bne_star, if_true]
+            rfl
+          · intro p ps h hl
+            rw [hsp] at h
+            simp only [List.cons.injEq] at h
+            obtain ⟨rfl, rfl⟩ := h
+            rw [hq, List.getLast?_cons_cons, ← hq] at hl
+            rw [hcol, splitOn_dash, hT hl]
+            simp only [List.filter_cons, star_bne_star]
+            rfl
+        · by_cases h2 : s' = [42]
+          · -- text ends in `-*`: excluded by the hypotheses
+            subst h2
+            constructor
+            · intro hl; exact absurd (by decide) hl
+            · intro p ps h hl
+              have h' : splitOn 45 [45, 42] = [[], star] := by decide
+              rw [h'] at h
+              simp only [List.cons.injEq] at h
+              obtain ⟨rfl, rfl⟩ := h
+              exact absurd (by decide) hl
+          · -- plain `-`
+            have hcol : ∀ e, collapse e (45 :: s') = 45 :: collapse false s' := by
+              intro e
+              apply collapse_copy
+              · rintro ⟨_, h | h⟩
+                · exact h1 h
+                · exact h2 h
+              · rintro ⟨_, h, _⟩; cases h
+            have hF := (ih s' hs').2 p' ps' hp'
+            have hpstar : p' ≠ star := by
+              intro h; subst h
+              rcases splitOn_head_star hp' with h | h
+              · exact h2 h
+              · exact h1 h
+            have hpb : (p' != star) = true := by simpa [bne] using hpstar
+            constructor
+            · intro hl
+              rw [splitOn_dash, hp'] at hl
+              have hl' : ps'.getLast? ≠ some star := by
+                cases ps' with
+                | nil => simp
+                | cons x xs =>
+                  rw [List.getLast?_cons_cons, List.getLast?_cons_cons] at hl; exact hl
+              rw [hcol, splitOn_dash, hF hl', splitOn_dash, hp']
+              simp only [List.filter_cons, nil_bne_star, hpb, if_true]
+            · intro p ps h hl
+              rw [splitOn_dash, hp'] at h
+              simp only [List.cons.injEq] at h
+              obtain ⟨rfl, rfl⟩ := h
+              have hl' : ps'.getLast? ≠ some star := by
+                cases ps' with
+                | nil => simp
+                | cons x xs => rw [List.getLast?_cons_cons] at hl; exact hl
+              rw [hcol, splitOn_dash, hF hl']
+              simp only [List.filter_cons, hpb, if_true]
+      · -- `a` is not `-`
+        have hsp : splitOn 45 (a :: s') = (a :: p') :: ps' := splitOn_cons_ne ha hp'
+        have hcolF : collapse false (a :: s') = a :: collapse false s' := by
+          apply collapse_copy
+          · rintro ⟨h, _⟩; exact ha h
+          · rintro ⟨h, _⟩; cases h
+        have hF := (ih s' hs').2 p' ps' hp'
+        constructor
+        · intro hl
+          by_cases h3 : a = 42 ∧ ((∃ rest, s' = 45 :: rest) ∨ s' = [])
+          · obtain ⟨rfl, h3 | h3⟩ := h3
+            · -- loop: `*-`
+              obtain ⟨rest, rfl⟩ := h3
+              have hrest : rest.length ≤ n := by
+                simp only [List.length_cons] at hs'; omega
+              have hsp' : splitOn 45 (42 :: 45 :: rest) = star :: splitOn 45 rest :=
+                splitOn_cons_ne (by decide) (splitOn_dash rest)
+              obtain ⟨q, qs, hq⟩ := splitOn_exists rest
+              rw [hsp', hq, List.getLast?_cons_cons, ← hq] at hl
+              rw [collapse.eq_1, (ih rest hrest).1 hl, hsp']
+              simp only [List.filter_cons, star_bne_star]
+              rfl
+            · -- loop: `*$`, excluded
+              subst h3
+              exact absurd (by decide) hl
+          · have hcolT : collapse true (a :: s') = a :: collapse false s' := by
+              apply collapse_copy
+              · rintro ⟨h, _⟩; exact ha h
+              · rintro ⟨_, h⟩; exact h3 h
+            have hne : a :: p' ≠ star := by
+              intro h
+              simp only [star, List.cons.injEq] at h
+              obtain ⟨rfl, rfl⟩ := h
+              apply h3
+              refine ⟨rfl, ?_⟩
+              rcases splitOn_head_nil hp' with h | ⟨rest, h⟩
+              · exact Or.inr h
+              · exact Or.inl ⟨rest, h⟩
+            have hneb : ((a :: p') != star) = true := by simpa [bne] using hne
+            rw [hsp] at hl
+            have hl' : ps'.getLast? ≠ some star := by
+              cases ps' with
+              | nil => simp
+              | cons x xs => rw [List.getLast?_cons_cons] at hl; exact hl
+            rw [hcolT, splitOn_cons_ne ha (hF hl'), hsp]
+            simp only [List.filter_cons, hneb, if_true]
+        · intro p ps h hl
+          rw [hsp] at h
+          simp only [List.cons.injEq] at h
+          obtain ⟨rfl, rfl⟩ := h
+          rw [hcolF, splitOn_cons_ne ha (hF hl)]
+
+/-- The text-level strip is `stripWild` on the subtags — for EVERY text (no hypothesis on the
+    subtags is needed). -/
+theorem splitOn_wildStripText (s : Str) :
+    splitOn 45 (wildStripText s) = stripWild (splitOn 45 s) := by
+  unfold wildStripText
+  obtain ⟨p, ps, hp⟩ := splitOn_exists s
+  have h1 : splitOn 45 (tailStrip s) = p :: dropTrailingStars ps := by
+    rw [splitOn_tailStrip, hp]; rfl
+  rw [((collapse_spec _ (tailStrip s) (Nat.le_refl _)).2 p _ h1 (getLast_dropTrailingStars ps)),
+    filter_dropTrailingStars, hp]
+  rfl
+
+/-! ### The regex model's strip (for examples that tie `wildStripText` to the two regexes) -/
+
+/-- The wildcard strip as the driver instantiates it (`wildStripImpl` in `Driver/Main.lean`):
+    the regex engine model run on the two regexes extracted from the source. -/
+def wildStripRx (s : Str) : Str :=
+  Rx.subAll asciiEnv Gen.cm_RE_WILD_STRIP [45] (Rx.subAll asciiEnv Gen.cm_RE_WILD_TAIL [] s)
+
+/-- All texts over `alpha` of length at most `n`. -/
+def allStrings (alpha : List Nat) : Nat → List Str
+  | 0 => [[]]
+  | n + 1 => [] :: (allStrings alpha n).flatMap (fun s => alpha.map (· :: s))
 
 end LangLemmas
 end SoupVerif
